@@ -5,7 +5,7 @@ Ops: [0] LockRead  [1] LockWrite  [2,it] Begin  [3,it] Next  [4,it] Deref  [5,it
      [12,it] BeginFail  [13,v] PushFail  [14,it] EraseFail: the same calls with the first allocation made inside
      them failing (std::bad_alloc from the allocator, K_THROW 2 ... K_CATCH 0): registration record, list node,
      erase's reclamation record
-cfg = [unfixed, element kind] (unfixed always 0 in the check: the model describes the repaired source; element kind
+cfg = [unfixed, element kind, mutex kind] (mutex kind 1 = std::timed_mutex as the list's M; unfixed always 0 in the check: the model describes the repaired source; element kind
 1 = trivially destructible element type in the driver, same events: the model ignores it).
 Values pushed in one case are pairwise distinct, so that the monitors can name elements.  A NEGATIVE value makes
 the element constructor throw inside allocator_traits::construct (K_CALL 1, K_THROW 0, ... K_CATCH 0): the
@@ -25,7 +25,7 @@ LOCKR, LOCKW, BEGIN, NEXT, DEREF, ISEND, PUSHF, PUSHB, EMPF, EMPB, ERASE, RELEAS
 BEGINF, PUSHFAIL, ERASEF = 12, 13, 14      # the first allocation inside the call throws std::bad_alloc
 PUSHES = (PUSHF, PUSHB, EMPF, EMPB, PUSHFAIL)
 READ_OPS = (LOCKR, LOCKW, BEGIN, NEXT, DEREF, ISEND, RELEASE)
-CW = ((14, 0), (2, 3), (1, 1))
+CW = ((14, 0), (2, 3), (1, 1), (1, 2))   # 2 = a timed lock attempt times out (only matters for a timed write mutex)
 
 
 class _Vals:
@@ -153,7 +153,7 @@ def _race3(rng, vals):
     for _ in range(rng.range(2, 7)):
         t = rng.weighted([(3, 0), (4, 1), (2, 2)])
         sched += [(t, rng.weighted(list(CW)))] * rng.range(3, 34)
-    return {'cfg': [0, 1 if rng.chance(1, 3) else 0], 'progs': progs, 'sched': sched}
+    return {'cfg': [0, 1 if rng.chance(1, 3) else 0, 1 if rng.chance(1, 3) else 0], 'progs': progs, 'sched': sched}
 
 
 def _first2(rng, vals):
@@ -183,7 +183,7 @@ def _first2(rng, vals):
     sched += [(0, 0)] * rng.range(2, 20)                                                # the paused reader goes on
     for _ in range(rng.range(1, 5)):
         sched += [(rng.below(3), rng.weighted(list(CW)))] * rng.range(3, 30)
-    return {'cfg': [0, 1 if rng.chance(1, 3) else 0], 'progs': progs, 'sched': sched}
+    return {'cfg': [0, 1 if rng.chance(1, 3) else 0, 1 if rng.chance(1, 3) else 0], 'progs': progs, 'sched': sched}
 
 
 def gen(rng, tier, spec):
@@ -217,7 +217,7 @@ def gen(rng, tier, spec):
         # two parked threads: a reader inside its session and a releaser inside its scan / reclaim loop
         a, b = rng.below(nt), rng.below(nt)
         sched = [(a, 0)] * rng.range(1, 20) + [(b, 0)] * rng.range(1, 40) + R.sched_random(rng, nt, rng.range(0, 100), CW)
-    return {'cfg': [0, 1 if rng.chance(1, 3) else 0], 'progs': progs, 'sched': prefix + sched}
+    return {'cfg': [0, 1 if rng.chance(1, 3) else 0, 1 if rng.chance(1, 3) else 0], 'progs': progs, 'sched': prefix + sched}
 
 
 # ----------------------------------------------------------------------------- trace reading
@@ -343,7 +343,7 @@ def _mutations(case, lines):
             continue
         if any(e[1] == K['THROW'] for e in op['evs']):
             continue            # the constructor threw: nothing was inserted
-        lock = [e for e in op['evs'] if e[1] == K['LOCK']]
+        lock = [e for e in op['evs'] if e[1] in (K['LOCK'], K['TRYLOCK_FOR'])]
         if not lock:
             continue
         after = [e for e in op['evs'] if e[0] > lock[0][0]]
@@ -514,7 +514,7 @@ def mon_mo_weakened(case, lines):
         locked, last_alloc, pending, first = False, None, None, False
         backpush = op['op'][0] in (PUSHB, EMPB, PUSHFAIL)
         for i, k, o, v, m in op['evs']:
-            if k == K['LOCK']:
+            if k in (K['LOCK'], K['TRYLOCK_FOR']):
                 locked = True
             elif k == K['ALLOC']:
                 last_alloc = (o, v, locked)
@@ -549,5 +549,58 @@ def mon_mo_weakened(case, lines):
     return None
 
 
+def mon_write_mutex(case, lines):
+    """C12: every mutator section runs while the thread OWNS the write mutex: the allocation of a list node and every
+    pointer store of push_* / emplace_* / erase other than those to a log record the operation itself allocated (the
+    lazy registration before the mutex is taken, erase's private record).  Ownership is what the trace shows: lock,
+    a timed attempt that SUCCEEDED, unlock."""
+    STP = K['STORE'] + PTR
+    owner = {}          # mutex object -> thread
+    cur = {}            # thread -> [opcode, set of record objects allocated in this operation]
+    for i, t, k, o, v, m in _events(lines):
+        if k == K['INVOKE']:
+            cur[t] = [v, set()]
+        elif k in (K['RET'], K['CATCH']):
+            cur.pop(t, None)
+        elif k == K['LOCK'] or (k in (K['TRYLOCK'], K['TRYLOCK_FOR']) and v == 1):
+            owner[o] = t
+        elif k == K['UNLOCK']:
+            if owner.get(o) == t:
+                owner.pop(o)
+        elif t in cur and cur[t][0] in PUSHES + (ERASE, ERASEF):
+            if k == K['ALLOC'] and v == 2:
+                cur[t][1].add(o)
+            elif (k == K['ALLOC'] and v == 1) or (k == STP and o not in cur[t][1]):
+                if t not in owner.values():
+                    held = ', '.join('thread %d holds obj%d' % (u, mo) for mo, u in owner.items()) or 'nobody holds it'
+                    from events import pretty
+                    return ('thread %d executes "%s" (trace line %d) of a mutator without owning the write mutex (%s): writers are '
+                            'not serialised (a timed lock attempt that failed must not be treated as a lock)' % (t, pretty([t, k, o, v, m]), i, held))
+    return None
+
+
+def mon_erase_spins(case, lines):
+    """C14 (writer progress): erase() never waits for other threads' progress except by blocking on the write mutex: no
+    yield / sleep, and no poll of a counter (the list has only pointer atomics; an integral atomic read before the
+    mutex is taken is a gate other threads open).  RcuLiveProofs.progress_step / eventually_finishes: in the model every
+    step of erase is enabled whenever the write mutex is free or owned."""
+    for op in _ops(case, lines):
+        if op['op'][0] not in (ERASE, ERASEF):
+            continue
+        locked = False
+        for i, k, o, v, m in op['evs']:
+            if k in (K['LOCK'], K['TRYLOCK_FOR']):
+                locked = True
+            if k in (K['YIELD'], K['SLEEP']):
+                return ('thread %d: erase yields / sleeps at trace line %d: it waits for other threads\' progress; in the model every '
+                        'step of erase is enabled once the write mutex is free or owned (rcu_progress_step), and every run can be '
+                        'completed (rcu_eventually_finishes)' % (op['t'], i))
+            if k == K['LOAD'] and not locked:
+                return ('thread %d: erase polls the integral atomic obj%d (value %d) at trace line %d before taking the write mutex: '
+                        'a gate that only other threads\' progress opens (rcu_list has pointer atomics only; rcu_progress_step / '
+                        'rcu_eventually_finishes: erase never waits except on the write mutex)' % (op['t'], o, v, i))
+    return None
+
+
 MONITORS = {'read_spins': mon_read_spins, 'fault': mon_fault, 'ledger': mon_ledger, 'contents': mon_contents, 'traversal': mon_traversal,
-            'read_mutex': mon_read_mutex, 'deadlock': mon_deadlock, 'mo_weakened': mon_mo_weakened}
+            'read_mutex': mon_read_mutex, 'deadlock': mon_deadlock, 'mo_weakened': mon_mo_weakened, 'write_mutex': mon_write_mutex, 'erase_spins': mon_erase_spins}
